@@ -51,9 +51,10 @@ FLOORS = {
     'sort:ties': (0.40, 'sort:case'),
     'history:repeat-call': (0.30, 'history:case'),
     'misuse:error-demanded': (0.60, 'misuse:case'),
-    'closure:pattern:empty-closure': (0.10, 'closure:case'),
-    'closure:pattern:focus-partial': (0.10, 'closure:case'),
-    'closure:pattern:callable': (0.08, 'closure:case'),
+    'closure:pattern:empty-closure': (0.06, 'closure:case'),
+    'closure:pattern:focus-partial': (0.06, 'closure:case'),
+    'closure:pattern:callable': (0.06, 'closure:case'),
+    'closure:pattern:factory-via-ref': (0.06, 'closure:case'),
     'program:fold-multi-item-zero': (0.03, 'program:case'),
     'sort-hetero:python-equal-twins': (0.70, 'sort-hetero:case'),
     'sort-collation:orders-differ': (0.70, 'sort-collation:case'),
@@ -211,7 +212,7 @@ def compare(exp, obs):
         return f'no-error:{exp[1]}' if exp[2] else None
     if obs[0] == 'err':
         return f'unexpected-error:{obs[1]}'
-    return base.seq_mismatch(exp[1], obs[1])
+    return base.seq_mismatch(_flat(exp[1]), obs[1])      # select() flattens arrays in the result
 
 
 def construct_name(n):
